@@ -8,6 +8,29 @@ Definition FF : N := 18446744073709551615.
 Definition Dot : re := Cls [(0, 9); (11, 1114111)].      (* . : any character but newline *)
 Definition AnyC : re := Cls [(0, 1114111)].
 
+(* Large installations are printed by ranges: accounts k = first .. first+count-1 of one wallet,
+   named prefix ++ decimal k; their validators with consecutive indices and one lifecycle; runs
+   of consecutive ids / (index, id) pairs in what was offered and in what was observed.  These
+   are plain list abbreviations, evaluated before anything is compared. *)
+Fixpoint range_from (n : nat) (first : N) : list N :=
+  match n with O => [] | S n' => first :: range_from n' (first + 1) end.
+Definition range_N (first count : N) : list N := range_from (N.to_nat count) first.
+
+Fixpoint dec_digits (fuel : nat) (n : N) (acc : string) : string :=
+  match fuel with
+  | O => acc
+  | S f => let acc' := String (ascii_of_N (48 + n mod 10)) acc in
+           if n <? 10 then acc' else dec_digits f (n / 10) acc'
+  end.
+Definition dec (n : N) : string := dec_digits 20 n EmptyString.
+
+Definition range_accounts (wallet prefix : string) (first count : N) (locked : bool) : list account :=
+  map (fun k => Build_account k wallet (prefix ++ dec k) locked) (range_N first count).
+Definition range_vals (first count idx0 elig act exit wd : N) (slashed : bool) (bal : N) : list val :=
+  map (fun k => Build_val k (idx0 + (k - first)) elig act exit wd slashed bal) (range_N first count).
+Definition range_pairs (idx0 id0 count : N) : list (N * N) :=
+  map (fun j => (idx0 + j, id0 + j)) (range_N 0 count).
+
 Record case := {
   c_id : N;
   c_cfg : config;
@@ -118,11 +141,14 @@ Section Spec.
     | Wallet => replaced || retained
     end.
 
-  (* the validator set: an error or an empty answer never replaces what is known *)
+  (* the validator set: a refresh during which the node failed (for every request, or for every
+     request naming a key that is among the known accounts' keys) or answered nothing never
+     replaces what is known: no validator known before it disappears *)
   Definition vals_after (old : list val) (known : list N) (vo : vout) : list val :=
-    match vo with
-    | VErr => old
-    | VOk l => match node_answer l known with [] => old | got => got end
+    match node_reply vo known with
+    | None => old
+    | Some [] => old
+    | Some got => got
     end.
 
   (* validating = active and not slashed at e; sync = activated and withdrawal not done *)
@@ -168,7 +194,9 @@ Section Spec.
     match outs with
     | OCtorErr :: rest =>
         match c_mgr cfg, ops with
-        | Wallet, Refresh _ VErr :: ops' =>
+        | Wallet, Refresh offered vo :: ops' =>
+            (* the constructor may give up only if the node failed a request it may have made *)
+            match vo with VErr => true | VOk _ => false | VFailOn pk _ => mem_N pk (hi_set offered) end &&
             (List.length ops' =? List.length rest)%nat && forallb (fun x => match x with ODead => true | _ => false end) rest
         | _, _ => false
         end
